@@ -74,13 +74,21 @@ func (c *Ctx) add(v Verdict, fn, construct, pos, detail string, nontrivial bool)
 	c.Obls = append(c.Obls, o)
 }
 
-func (c *Ctx) ok(fn, construct, pos, detail string)  { c.add(Discharged, fn, construct, pos, detail, true) }
-func (c *Ctx) triv(fn, construct, pos, detail string) { c.add(Discharged, fn, construct, pos, detail, false) }
-func (c *Ctx) bad(fn, construct, pos, detail string)  { c.add(Violated, fn, construct, pos, detail, true) }
+func (c *Ctx) ok(fn, construct, pos, detail string) {
+	c.add(Discharged, fn, construct, pos, detail, true)
+}
+func (c *Ctx) triv(fn, construct, pos, detail string) {
+	c.add(Discharged, fn, construct, pos, detail, false)
+}
+func (c *Ctx) bad(fn, construct, pos, detail string) {
+	c.add(Violated, fn, construct, pos, detail, true)
+}
 func (c *Ctx) undecided(fn, construct, pos, detail string) {
 	c.add(Undecided, fn, construct, pos, detail, true)
 }
-func (c *Ctx) note(fn, construct, pos, detail string) { c.add(Noted, fn, construct, pos, detail, false) }
+func (c *Ctx) note(fn, construct, pos, detail string) {
+	c.add(Noted, fn, construct, pos, detail, false)
+}
 
 // check records discharged when cond holds, violated otherwise.
 func (c *Ctx) check(cond bool, fn, construct, pos, okDetail, badDetail string) bool {
